@@ -1,4 +1,225 @@
-pub fn main(_args: &[String]) {
-    eprintln!("values: not built yet");
-    std::process::exit(2);
+//! `values` subcommand (property C12): round trips through `JsValue`.
+//!
+//! bvh values i32 <threads>                 exhaustive: all 2^32 int32
+//! bvh values f64 <seed> <random_count>     structured set (sign x exponent x tag nibble x boundary mantissas) + seeded random bit patterns
+//! bvh values heap <seed> <count>           booleans / null / undefined / strings / objects / bigints / symbols
+//!
+//! Prints one JSON object; exit code 1 on the first violation.
+
+use boa_engine::{Context, JsBigInt, JsObject, JsString, JsSymbol, JsValue, JsVariant, js_string};
+use std::sync::atomic::{AtomicU64, Ordering};
+
+fn fail(what: String) -> ! {
+    println!("{{\"violation\":{:?}}}", what);
+    std::process::exit(1);
+}
+
+fn check_not_other(v: &JsValue, what: &str) {
+    if v.is_undefined() || v.is_null() || v.is_boolean() || v.is_object() || v.is_string() || v.is_symbol() || v.is_bigint() {
+        fail(format!("{what}: a number is classified as another type: {:?}", v.variant()));
+    }
+}
+
+fn check_f64(bits: u64, how: &str, v: &JsValue) {
+    let f = f64::from_bits(bits);
+    if !v.is_number() {
+        fail(format!("f64 bits {bits:#018x} via {how}: is_number() is false, variant {:?}", v.variant()));
+    }
+    check_not_other(v, &format!("f64 bits {bits:#018x} via {how}"));
+    let Some(back) = v.as_number() else {
+        fail(format!("f64 bits {bits:#018x} via {how}: as_number() is None"));
+    };
+    if f.is_nan() {
+        if !back.is_nan() {
+            fail(format!("NaN bits {bits:#018x} via {how}: reads back as {back:?}"));
+        }
+    } else if back.to_bits() != bits {
+        fail(format!("f64 bits {bits:#018x} ({f:e}) via {how}: reads back as bits {:#018x} ({back:e})", back.to_bits()));
+    }
+    match v.variant() {
+        JsVariant::Float64(x) => {
+            if !(x.is_nan() && f.is_nan()) && x.to_bits() != bits {
+                fail(format!("f64 bits {bits:#018x} via {how}: variant Float64 holds {:#018x}", x.to_bits()));
+            }
+        }
+        JsVariant::Integer32(i) => {
+            if f64::from(i).to_bits() != bits {
+                fail(format!("f64 bits {bits:#018x} via {how}: variant Integer32({i}) is a different number"));
+            }
+        }
+        other => fail(format!("f64 bits {bits:#018x} via {how}: variant {other:?}")),
+    }
+    // a clone is the same value
+    let c = v.clone();
+    if c.as_number().map(f64::to_bits) != v.as_number().map(f64::to_bits) && !f.is_nan() {
+        fail(format!("f64 bits {bits:#018x} via {how}: clone differs"));
+    }
+}
+
+struct Rng(u64);
+impl Rng {
+    fn next(&mut self) -> u64 {
+        self.0 = self.0.wrapping_add(0x9E37_79B9_7F4A_7C15);
+        let mut z = self.0;
+        z = (z ^ (z >> 30)).wrapping_mul(0xBF58_476D_1CE4_E5B9);
+        z = (z ^ (z >> 27)).wrapping_mul(0x94D0_49BB_1331_11EB);
+        z ^ (z >> 31)
+    }
+}
+
+pub fn main(args: &[String]) {
+    match args.first().map(String::as_str) {
+        Some("i32") => {
+            let threads: u64 = args.get(1).and_then(|s| s.parse().ok()).unwrap_or(16);
+            let checked = AtomicU64::new(0);
+            std::thread::scope(|s| {
+                for t in 0..threads {
+                    let checked = &checked;
+                    s.spawn(move || {
+                        let span = (1u64 << 32) / threads;
+                        let lo = t * span;
+                        let hi = if t == threads - 1 { 1u64 << 32 } else { lo + span };
+                        let mut n = 0u64;
+                        for u in lo..hi {
+                            let i = u as u32 as i32;
+                            let v = JsValue::new(i);
+                            if v.as_i32() != Some(i) {
+                                fail(format!("i32 {i}: as_i32() is {:?}", v.as_i32()));
+                            }
+                            if !v.is_number() || !matches!(v.variant(), JsVariant::Integer32(x) if x == i) {
+                                fail(format!("i32 {i}: variant is {:?}", v.variant()));
+                            }
+                            if v.as_number() != Some(f64::from(i)) {
+                                fail(format!("i32 {i}: as_number() is {:?}", v.as_number()));
+                            }
+                            if v.is_undefined() || v.is_null() || v.is_boolean() || v.is_object() || v.is_string() || v.is_symbol() || v.is_bigint() {
+                                fail(format!("i32 {i}: classified as another type"));
+                            }
+                            n += 1;
+                        }
+                        checked.fetch_add(n, Ordering::Relaxed);
+                    });
+                }
+            });
+            println!("{{\"checked\":{},\"exhaustive\":true}}", checked.load(Ordering::Relaxed));
+        }
+        Some("f64") => {
+            let seed: u64 = args.get(1).and_then(|s| s.parse().ok()).unwrap_or(0);
+            let random: u64 = args.get(2).and_then(|s| s.parse().ok()).unwrap_or(1 << 20);
+            let n = std::cell::Cell::new(0u64);
+            let nans = std::cell::Cell::new(0u64);
+            let check_all = |bits: u64| {
+                let f = f64::from_bits(bits);
+                check_f64(bits, "JsValue::new", &JsValue::new(f));
+                check_f64(bits, "From<f64>", &JsValue::from(f));
+                check_f64(bits, "rational", &JsValue::rational(f));
+                // through f32 (exact for every f32 value)
+                let g = f as f32;
+                if !g.is_nan() {
+                    check_f64(f64::from(g).to_bits(), "From<f32>", &JsValue::from(g));
+                } else if !JsValue::from(g).as_number().is_some_and(f64::is_nan) {
+                    fail(format!("f32 NaN from bits {bits:#018x} does not read back as NaN"));
+                }
+                if f.is_nan() {
+                    nans.set(nans.get() + 1);
+                }
+                n.set(n.get() + 1);
+            };
+            let mantissas: [u64; 12] = [0, 1, (1 << 52) - 1, 1 << 31, 1 << 32, 1 << 47, 1 << 48, 1 << 50, 1 << 51, (1 << 51) | 1, (1 << 48) - 1, 0x0000_5555_5555_5555];
+            for sign in 0..2u64 {
+                for exp in 0..2048u64 {
+                    for nibble in 0..16u64 {
+                        for m in mantissas {
+                            let mant = (m & 0x0000_FFFF_FFFF_FFFF) | (nibble << 48);
+                            check_all((sign << 63) | (exp << 52) | mant);
+                        }
+                    }
+                }
+            }
+            let structured = n.get();
+            let mut rng = Rng(seed);
+            for k in 0..random {
+                let mut b = rng.next();
+                // a third of the random patterns are forced into the NaN / tag space
+                if k % 3 == 0 {
+                    b |= 0x7FF0_0000_0000_0000;
+                }
+                check_all(b);
+            }
+            println!("{{\"checked\":{},\"structured\":{structured},\"random\":{random},\"nan_patterns\":{}}}", n.get(), nans.get());
+        }
+        Some("heap") => {
+            let seed: u64 = args.get(1).and_then(|s| s.parse().ok()).unwrap_or(0);
+            let count: u64 = args.get(2).and_then(|s| s.parse().ok()).unwrap_or(10_000);
+            let mut ctx = Context::default();
+            let mut rng = Rng(seed);
+            let mut n = 0u64;
+            for b in [true, false] {
+                let v = JsValue::new(b);
+                if v.as_boolean() != Some(b) || !v.is_boolean() || v.is_number() || v.is_null() || v.is_undefined() || v.is_object() {
+                    fail(format!("bool {b}: misclassified {:?}", v.variant()));
+                }
+                n += 1;
+            }
+            let u = JsValue::undefined();
+            let nl = JsValue::null();
+            if !u.is_undefined() || u.is_null() || u.is_number() || u.is_boolean() || u.is_object() || !nl.is_null() || nl.is_undefined() || nl.is_number() || nl.is_boolean() {
+                fail("undefined / null misclassified".into());
+            }
+            n += 2;
+            for _ in 0..count {
+                match rng.next() % 4 {
+                    0 => {
+                        let len = (rng.next() % 40) as usize;
+                        let units: Vec<u16> = (0..len).map(|_| (rng.next() % 0x3000) as u16).collect();
+                        let s = JsString::from(&units[..]);
+                        let before = s.refcount();
+                        let v = JsValue::new(s.clone());
+                        if !v.is_string() || v.is_object() || v.is_number() || v.as_string().is_none_or(|x| x != s) {
+                            fail(format!("string of {len} units: misclassified or changed: {:?}", v.variant()));
+                        }
+                        let c = v.clone();
+                        drop(c);
+                        drop(v);
+                        if s.refcount() != before {
+                            fail(format!("string refcount not conserved over store/clone/drop: {:?} -> {:?}", before, s.refcount()));
+                        }
+                    }
+                    1 => {
+                        let o = JsObject::with_null_proto();
+                        let v = JsValue::new(o.clone());
+                        if !v.is_object() || v.is_string() || v.is_number() || !v.as_object().is_some_and(|x| JsObject::equals(&x, &o)) {
+                            fail(format!("object: misclassified or different identity: {:?}", v.variant()));
+                        }
+                        let c = v.clone();
+                        if !c.as_object().is_some_and(|x| JsObject::equals(&x, &o)) {
+                            fail("object: clone has a different identity".into());
+                        }
+                    }
+                    2 => {
+                        let big = JsBigInt::from(rng.next() as i64);
+                        let v = JsValue::new(big.clone());
+                        if !v.is_bigint() || v.is_number() || v.is_object() || v.as_bigint().is_none_or(|x| x != big) {
+                            fail(format!("bigint: misclassified or changed: {:?}", v.variant()));
+                        }
+                    }
+                    _ => {
+                        let sym = JsSymbol::new(Some(js_string!("d"))).unwrap_or_else(|| fail("symbol creation failed".into()));
+                        let v = JsValue::new(sym.clone());
+                        if !v.is_symbol() || v.is_object() || v.is_string() || v.as_symbol().is_none_or(|x| x != sym) {
+                            fail(format!("symbol: misclassified or changed: {:?}", v.variant()));
+                        }
+                    }
+                }
+                n += 1;
+            }
+            drop(ctx.global_object());
+            let _ = &mut ctx;
+            println!("{{\"checked\":{n}}}");
+        }
+        _ => {
+            eprintln!("usage: bvh values i32|f64|heap ...");
+            std::process::exit(2);
+        }
+    }
 }
